@@ -269,6 +269,8 @@ def run_shard(spec, rec):
         def rec_(real, abstract):
             if isinstance(abstract, T.QA):
                 tgt = abstract.target
+                if abstract.as_unit:
+                    return                      # a Unit object: immutable, nothing to fingerprint
                 if isq(real):
                     m = np.asarray(real._magnitude)
                     fps.append((tgt, (m.tobytes(), m.shape, str(m.dtype),
@@ -350,7 +352,9 @@ def run_shard(spec, rec):
             return bool(np.all(g == e))
         fin = np.isfinite(e)
         scale = float(np.max(np.abs(e[fin]))) if np.any(fin) else 1.0
-        return bool(np.allclose(g, e, rtol=tol, atol=tol * max(scale, 1e-300), equal_nan=True))
+        # absolute floor 1e-11: generated physical values are O(0.1 .. 1e3) in root units, so a
+        # result that cancels to ~0 carries rounding noise of that order and no unit information
+        return bool(np.allclose(g, e, rtol=tol, atol=max(tol * scale, 1e-11), equal_nan=True))
 
     class Mismatch(Exception):
         def __init__(self, clause, msg):
